@@ -79,4 +79,7 @@ example : Reach 1 { conns := [⟨7, true, false, 0⟩], count := 1, rejected := 
 /-- regenerated from the source on every run: Listen starts the idle reaper before it chooses between a TLS and a plain listener -/
 theorem gen_reaper_for_every_listener : Gen.listenStartsReaperForEveryListener = true := by decide
 
+/-- regenerated from the source on every run: the accept loop counts a connection only after the host filter admitted its peer, and a closing connection is uncounted whatever the logging options -/
+theorem gen_accounting_order : (Gen.acceptLoopFiltersBeforeCounting && Gen.unregisterUncountsUnconditionally) = true := by decide
+
 end Props.C17
